@@ -39,13 +39,16 @@ def snapshot_globals():
 class RefResult(__import__('unittest').TestResult):
     """Stock unittest result that records which result events arrive."""
 
-    def __init__(self):
+    def __init__(self, log=None):
         super().__init__()
         self.ev = {}
         self.started = {}
+        self.log = log
 
     def _add(self, test, kind):
         self.ev.setdefault(test._verif_id, []).append(kind)
+        if self.log is not None:
+            self.log.emit('R', t=test._verif_id, kind=kind)
 
     def startTest(self, test):
         self.started[test._verif_id] = True
@@ -86,13 +89,29 @@ def compute_ref(spec):
     old = sys.stdout, sys.stderr
     sys.stdout, sys.stderr = io.StringIO(), io.StringIO()
     try:
-        res = RefResult()
+        res = RefResult(log)
         for tid, t in w.tests.items():
             t.run(res)
     finally:
         sys.stdout, sys.stderr = old
+    # the writes of every test in their position relative to its result
+    # events (a fact about stock unittest on this interpreter)
+    seq = {t: [] for t in w.tests}
+    for e in log.mem:
+        if e['e'] == 'Write' and e.get('t') in seq:
+            seq[e['t']].append({'k': 'w', 'tok': e['tok'], 's': e['stream'],
+                                'via': e['via'], 'v': '',
+                                'own': bool(e.get('own')), 'dc': bool(e.get('dc'))})
+        elif e['e'] in ('Redirect', 'Unredirect') and e.get('t') in seq:
+            seq[e['t']].append({'k': 'r' if e['e'] == 'Redirect' else 'u',
+                                'tok': '', 's': e['stream'], 'via': '', 'v': '',
+                                'own': False, 'dc': False})
+        elif e['e'] == 'R':
+            seq[e['t']].append({'k': 'e', 'tok': '', 's': '', 'via': '',
+                                'v': e['kind'], 'own': False, 'dc': False})
     return {'ev': {t: res.ev.get(t, []) for t in w.tests},
-            'started': {t: bool(res.started.get(t)) for t in w.tests}}
+            'started': {t: bool(res.started.get(t)) for t in w.tests},
+            'seq': seq}
 
 
 def run_job(job, scratch):
@@ -109,6 +128,11 @@ def run_job(job, scratch):
     if kind == 'stringio':
         out = io.StringIO()
         err = io.StringIO()
+    elif kind == 'merged':
+        # one stream object for both: the relative order of what goes to
+        # stdout and to stderr becomes observable
+        out = err = open(outpath, 'w+', encoding='utf-8',
+                         errors='backslashreplace')
     else:
         out = open(outpath, 'w+', encoding='utf-8', errors='backslashreplace')
         err = open(errpath, 'w+', encoding='utf-8', errors='backslashreplace')
@@ -149,6 +173,12 @@ def run_job(job, scratch):
     if kind == 'stringio':
         res['stdout'] = out.getvalue()
         res['stderr'] = err.getvalue()
+    elif kind == 'merged':
+        out.flush()
+        out.seek(0)
+        res['stdout'] = out.read()
+        res['stderr'] = ''
+        out.close()
     else:
         out.flush()
         err.flush()
